@@ -334,7 +334,8 @@ class Duration(
                 f = core_utilities.str_to_number_parser(object)
                 try:
                     v = f(object)
-                except ValueError:
+                # 'Fraction("1/0")' raises a ZeroDivisionError
+                except (ValueError, ZeroDivisionError):
                     pass
                 else:
                     return Duration.from_any(v)
@@ -376,7 +377,8 @@ class Tempo(SingleNumberParameter, value_name="bpm", value_return_type="float"):
                 f, v = core_utilities.str_to_number_parser(object), None
                 try:
                     v = f(object)
-                except ValueError:
+                # 'Fraction("1/0")' raises a ZeroDivisionError
+                except (ValueError, ZeroDivisionError):
                     try:
                         v = ast.literal_eval(object)
                     except Exception:
